@@ -46,6 +46,27 @@ try:
                 verdict(True, "a merged (non-mainline) revision was given a mainline revision number")
             except errors.NoSuchRevision:
                 pass
+    # the tip is replaced by a diverged history of the same length inside one lock: the answers must follow the new tip
+    alt = wt.controldir.sprout(os.path.join(base, "alt"), revision_id=revs[n - 2]).open_workingtree()
+    open(os.path.join(base, "alt", "h"), "w").write("h\n"); alt.add(["h"]); alt_tip = alt.commit("alt tip", committer="t <t@e.x>")
+    b = Branch.open(d)
+    with b.lock_write():
+        for k in range(0, n + 1):
+            b.get_rev_id(k)                       # warm every cache with the old history
+        b.fetch(alt.branch, alt_tip)
+        b.set_last_revision_info(n, alt_tip)      # same number, different revision
+        tried += 1
+        if b.get_rev_id(n) != alt_tip:
+            verdict(True, "after the tip was replaced at the same revision number, get_rev_id still answers from the old history",
+                    observed=str(b.get_rev_id(n)), expected=str(alt_tip))
+        if b.revision_id_to_revno(alt_tip) != n:
+            verdict(True, "after the tip was replaced, the new tip has no / a wrong revision number", observed=str(b.revision_id_to_revno(alt_tip)))
+        try:
+            old_no = b.revision_id_to_revno(revs[n - 1])
+            verdict(True, "the replaced tip still has a mainline revision number", observed=str(old_no))
+        except errors.NoSuchRevision:
+            pass
+        b.set_last_revision_info(n, revs[n - 1])
     verdict(False, "no failing query among %d" % tried)
 finally:
     shutil.rmtree(base, ignore_errors=True)
